@@ -24,6 +24,7 @@ def make_classes():
         def __init__(self, r, n, flavor):
             super().__init__()
             self.r, self.n, self.flavor = r, n, flavor
+            self.mut = r * 10   # a plain attribute that changes during the dataset's life
             self.data = [r * 1000 + i for i in range(n)]
             self.ids = tuple(self.data)   # per-sample access never depends on what happened to the bulk list
             self.disposed = 0
@@ -60,6 +61,16 @@ def make_classes():
         def dispose(self):
             self.disposed += 1
 
+    class RootNoBulk(RootDS):
+        """a root WITHOUT a bulk accessor: the library's getall utilities fall back to the per-sample accessor"""
+
+        def __getattribute__(self, item):
+            if item == "getall_x":
+                raise AttributeError(item)
+            return super().__getattribute__(item)
+
+    RootDS.NoBulk = RootNoBulk
+
     class WrapA(KDWrapper):
         pass
 
@@ -91,7 +102,7 @@ def build(r, K, max_layers, max_n):
         t.update(kw)
         return t
 
-    flavor = r.choice(["list", "listref", "numpy", "tensor"])
+    flavor = r.choice(["list", "listref", "numpy", "tensor", "none"])
     n_layers = r.randint(1, max_layers)
     for li in range(n_layers):
         kinds = ["root"] if not objs else ["root", "subset", "subset", "subsetw", "repeat", "shuffle", "concat", "concat",
@@ -102,7 +113,7 @@ def build(r, K, max_layers, max_n):
         if kind == "root":
             nroots += 1
             n = r.randint(1, max_n)
-            objs.append(RootDS(nroots, n, flavor))
+            objs.append((RootDS.NoBulk if flavor == "none" else RootDS)(nroots, n, flavor))
             terms.append(T("root", r=nroots, n=n))
             lens.append(n)
         elif kind in ("subset", "subsetw"):
@@ -183,6 +194,11 @@ def observe(p, terms, objs, lens):
     garef = False
     try:
         ga = getall(o, "x")
+    except AttributeError:
+        # a concat layer over roots without bulk accessor has nothing to concatenate: an explicit refusal
+        if not any(rt.flavor == "none" for rt in roots):
+            raise
+        garef, ga = True, []
     except AssertionError as e:
         # KDConcatDataset only concatenates list-valued bulk results (explicit assert); allowed for non-list roots
         import traceback
@@ -222,7 +238,14 @@ def observe(p, terms, objs, lens):
     lookup = lookup and [type(w) for w in wr] == o.all_wrapper_types and not o.has_wrapper(object())
     attr = o.root_attr if t["k"] != "root" else o.r
     try:
-        attrf = (o.root_none is None and o.root_zero == 0 and type(o.root_zero) is int and o.root_empty == ""
+        m1 = o.mut
+        for rt in roots:
+            rt.mut = rt.r * 10 + 1
+        m2 = o.mut            # delegation is resolved at every access: the new value, not a remembered one
+        for rt in roots:
+            rt.mut = rt.r * 10
+        fresh = (m1 == o.root_attr * 10 and m2 == o.root_attr * 10 + 1) if t["k"] != "root" else True
+        attrf = (fresh and o.root_none is None and o.root_zero == 0 and type(o.root_zero) is int and o.root_empty == ""
                  and o.root_false is False)
     except AttributeError:
         attrf = False
